@@ -184,6 +184,45 @@ theorem swap_le_identity (x : BitVec 32) : Gen.m_LE_swapU32.call noDefs [.u32 x]
 ''')
     out.append("end W2c2Verif.Props.C19\n")
     open(os.path.join(LEAN, "Props", "C19.lean"), "w").write("\n".join(out))
+    # read-modify-write and compare-exchange: the mutex-based big-endian bodies
+    out = ['''/-
+  Props.C19Rmw — the big-endian bodies of all 42 atomic read-modify-write and 7 compare-exchange functions (under the
+  mutex: typed load, byte swap, operate, byte swap, typed store; regenerated with WASM_ENDIAN = WASM_BIG_ENDIAN) return
+  the same old value and leave the same memory image on a big-endian host as the little-endian `__atomic_*` bodies on a
+  little-endian one — for every memory, naturally aligned in-bounds address and operand.  (Generated by
+  tools/gen_props/gen_c05.py; source file.)
+-/
+import W2c2Verif.Props.C19
+import W2c2Verif.Lemmas.Promote
+set_option linter.unusedSimpArgs false
+set_option linter.unusedVariables false
+
+namespace W2c2Verif.Props.C19
+open W2c2Verif
+
+/-- narrow operands are promoted to `int` by C: rewrite the promoted arithmetic, continue evaluating, then close with the
+    byte-swap lemmas and the narrowing lemmas -/
+macro "rmw_be_close" : tactic => `(tactic| (
+  try simp only [Nat.mod_one, promote8_add, promote8_sub, promote16_add, promote16_sub, arithS_band, arithS_bor, arithS_bxor, cmpS_eq_promote8, cmpS_eq_promote16, if_true]
+  try mem_eval
+  all_goals (first | rfl | (simp [se8, se16, Mem.bswap_readBE16, Mem.bswap_readBE32, Mem.bswap_readBE64, Mem.writeBE16_bswap, Mem.writeBE32_bswap, Mem.writeBE64_bswap, Mem.readLE8, Mem.writeLE8, ofNat_mod8, ofNat_mod16, ofNat_mod32, ofNat_mod64, narrow8_add, narrow8_sub, narrow16_add, narrow16_sub, narrowS8_add, narrowS8_sub, narrowS16_add, narrowS16_sub, toNat_eq_mod256, toNat_eq_mod65536, toNat_eq_mod4294967296, BitVec.toNat_inj]; done) | (simp [CVal.ofBool, ite_ne_zero32, se8, se16, Mem.bswap_readBE16, Mem.bswap_readBE32, Mem.bswap_readBE64, Mem.writeBE16_bswap, Mem.writeBE32_bswap, Mem.writeBE64_bswap, Mem.readLE8, Mem.writeLE8, toNat_eq_mod256, toNat_eq_mod65536, toNat_eq_mod4294967296, BitVec.toNat_inj]; done))))
+''']
+    for n, k, vc, N, op in RMW:
+        out.append(f'''theorem {n}_be_eq_le (m : Mem) (ea : BitVec 64) (v : BitVec {N}) (h : ea.toNat + {k} ≤ m.size) {align_hyp(k)} :
+    Gen.be_{n}.call noDefs .be m [.u64 ea, .{vc} v] = Gen.le_{n}.call noDefs .le m [.u64 ea, .{vc} v] := by
+  have h' : ¬ m.size < ea.toNat + {k} := by omega
+  simp only [Gen.be_{n}, Gen.le_{n}]; mem_eval
+  rmw_be_close
+''')
+    for n, k, vc, N in CMPX:
+        out.append(f'''theorem {n}_be_eq_le (m : Mem) (ea : BitVec 64) (e v : BitVec {N}) (h : ea.toNat + {k} ≤ m.size) {align_hyp(k)} :
+    Gen.be_{n}.call noDefs .be m [.u64 ea, .{vc} e, .{vc} v] = Gen.le_{n}.call noDefs .le m [.u64 ea, .{vc} e, .{vc} v] := by
+  have h' : ¬ m.size < ea.toNat + {k} := by omega
+  simp only [Gen.be_{n}, Gen.le_{n}]; mem_eval
+  rmw_be_close
+''')
+    out.append("end W2c2Verif.Props.C19\n")
+    open(os.path.join(LEAN, "Props", "C19Rmw.lean"), "w").write("\n".join(out))
 
 
 c19()
